@@ -487,7 +487,7 @@ def apply_rewrites(text, rewrites, log):
             continue
         if rw.get("macro"):
             new, n = _rewrite_m1(text, rw)
-            if n != rw.get("count", 1):
+            if n != rw.get("count", 1) and rw.get("count", 1) != -1:
                 raise VxError("lost anchor: rewrite %s macro %s! matched %d times, expected %d"
                               % (rw.get("id", "M1"), rw["macro"], n, rw.get("count", 1)))
             log.append({"id": rw.get("id", "M1"), "pattern": rw["macro"] + "!(..)", "replace": rw["fn"] + "((..))",
